@@ -7,7 +7,9 @@ import (
 	"errors"
 	"fmt"
 	"io"
+	"encoding/json"
 	"sort"
+	"strconv"
 	"strings"
 	"time"
 
@@ -109,7 +111,28 @@ type CredSpec struct {
 
 type KV struct {
 	K string `json:"k"`
-	V string `json:"v"` // raw bytes as Go string (JSON escapes as needed)
+	V RawStr `json:"v"` // arbitrary bytes
+}
+
+// RawStr is a byte string that survives JSON exactly: it is written as its Go
+// quoted form (encoding/json would replace invalid UTF-8 by U+FFFD).
+type RawStr string
+
+func (r RawStr) MarshalJSON() ([]byte, error) {
+	return json.Marshal(strconv.QuoteToASCII(string(r)))
+}
+
+func (r *RawStr) UnmarshalJSON(b []byte) error {
+	var q string
+	if err := json.Unmarshal(b, &q); err != nil {
+		return err
+	}
+	u, err := strconv.Unquote(q)
+	if err != nil {
+		return err
+	}
+	*r = RawStr(u)
+	return nil
 }
 
 // Op kinds (client): send recv recvall closesend header trailer mutate sleep invoke
@@ -132,7 +155,7 @@ type MsgSpec struct {
 
 type StatusSpec struct {
 	Code    int32  `json:"code"`
-	Msg     string `json:"msg,omitempty"`
+	Msg     RawStr `json:"msg,omitempty"`
 	Details int    `json:"details,omitempty"`
 	Plain   int    `json:"plain,omitempty"` // 0 status, 1 errors.New, 2 context.Canceled, 3 context.DeadlineExceeded, 4 io.EOF, 5 OK-coded non-nil error, 6 ctx.Err() of the handler's context
 }
@@ -202,7 +225,7 @@ func digestMsg(m proto.Message) string {
 func kvToMD(kvs []KV) metadata.MD {
 	md := metadata.MD{}
 	for _, kv := range kvs {
-		md[kv.K] = append(md[kv.K], kv.V)
+		md[kv.K] = append(md[kv.K], string(kv.V))
 	}
 	return md
 }
@@ -376,7 +399,7 @@ func (s *StatusSpec) Err(ctx context.Context) error {
 	}
 	switch s.Plain {
 	case 1:
-		return errors.New("plain error: " + s.Msg)
+		return errors.New("plain error: " + string(s.Msg))
 	case 2:
 		return context.Canceled
 	case 3:
@@ -384,7 +407,7 @@ func (s *StatusSpec) Err(ctx context.Context) error {
 	case 4:
 		return io.EOF
 	case 5:
-		return okCodedError{status.New(codes.OK, s.Msg)}
+		return okCodedError{status.New(codes.OK, string(s.Msg))}
 	case 6:
 		if ctx != nil && ctx.Err() != nil {
 			return ctx.Err()
@@ -394,7 +417,7 @@ func (s *StatusSpec) Err(ctx context.Context) error {
 	if s.Code == 0 {
 		return nil
 	}
-	st := status.New(codes.Code(uint32(s.Code)), s.Msg)
+	st := status.New(codes.Code(uint32(s.Code)), string(s.Msg))
 	if s.Details > 0 {
 		p := st.Proto()
 		p.Details = s.detailsProto()
